@@ -56,7 +56,7 @@ Templates == {T1, T2, T3, T4}
 ImportShapes == {<<0>>, <<0, 1, 1>>, <<0, 1, 2>>}   \* parent position of each node, in pre-order
 
 NoVectors    == {}
-Edit5Vectors == {<<"a", "a", "b", "a", "b">>, <<"a", "b", "a", "b", "a">>}      \* cfg: NameVectors <- Edit5Vectors
+Edit5Vectors == {<<"a", "a", "ab", "a", "ab">>, <<"a", "ab", "a", "ab", "a">>}      \* "a" is a substring of "ab": name matching must be equality      \* cfg: NameVectors <- Edit5Vectors
 
 Init ==
   /\ op = O("init", <<>>, NULL, TRUE)
